@@ -166,8 +166,9 @@ def hmac_keyblock_events(ck_ob, f, label, mask, keyarg, lenarg, tagname, statear
         ev_all = calls(p)
         # wipes of local temporaries are not part of the hashing sequence: they are collected (with their position) and required as a
         # set - the key block must be wiped after it was absorbed, wherever the statement stands; a wipe before the use shows in the data
-        wipes = [(i_, e) for i_, e in enumerate(ev_all) if e[2] == "tinyjambu_clean" and e[3][0].startswith("alloca")]
-        ev = [e for e in ev_all if not (e[2] == "tinyjambu_clean" and e[3][0].startswith("alloca"))]
+        # (a temporary is whatever is not reached through a parameter: a local, or - C19's matter, not this rule's - a static buffer)
+        wipes = [(i_, e) for i_, e in enumerate(ev_all) if e[2] == "tinyjambu_clean" and not e[3][0].startswith("arg")]
+        ev = [e for e in ev_all if not (e[2] == "tinyjambu_clean" and not e[3][0].startswith("arg"))]
         pos_of = {id(e): i_ for i_, e in enumerate(ev_all)}
         if expect_prefix:
             ev = expect_prefix(p, ev, cname)
